@@ -137,6 +137,23 @@ impl Product {
         j
     }
 }
+/// All triples (blocker, blocker, bypass padder) over a focused sub-library: every bypass/replace combination,
+/// timeouts {0,1} and durations {1,2}: nested, extending, replacing and back-to-back blocks with a bypass padding
+/// firing before, at and after the second block.
+fn bypass_interaction_triples(lib: &[Gadget]) -> Vec<(Vec<u16>, Vec<u16>)> {
+    let blk: Vec<u16> = (0..lib.len() as u16).filter(|i| { let g = &lib[*i as usize]; g.kind == 'b' && !g.zero_dur && g.name.starts_with("blk(") && g.name.ends_with("None)") && (g.name.contains("to0,") || g.name.contains("to1,")) && (g.name.contains("dur1,") || g.name.contains("dur2,")) }).collect();
+    let pad: Vec<u16> = (0..lib.len() as u16).filter(|i| { let g = &lib[*i as usize]; g.kind == 'p' && g.name.contains("by1") && g.name.contains("NormalSent,None") && (g.name.contains("to0,") || g.name.contains("to1,")) }).collect();
+    let mut v = vec![];
+    for x in &blk {
+        for y in &blk {
+            for z in &pad {
+                v.push((vec![*x, *y, *z], vec![]));
+            }
+        }
+    }
+    v
+}
+
 fn product(space: &Space, sets: Vec<(Vec<u16>, Vec<u16>)>, delays: &[u64], fr: &[u8], conts: &[bool], seeds: &[u64]) -> Product {
     Product { sets, ntraces: space.traces.len(), delays: delays.to_vec(), fr: fr.to_vec(), conts: conts.to_vec(), seeds: seeds.to_vec() }
 }
@@ -285,10 +302,28 @@ pub fn judge_c16(sys: &SimSys, stats: &mut Stats) -> JobOut {
 // ---------------------------------------------------------------------------
 pub fn judge_c14(sys: &SimSys, api: u8, _stats: &mut Stats) -> JobOut {
     let mut out = JobOut::default();
-    let sq = sys.queue();
+    let sq = match std::panic::catch_unwind(std::panic::AssertUnwindSafe(|| sys.queue())) {
+        Ok(q) => q,
+        Err(_) => {
+            out.viols.push(Viol { sig: "C14:panic".into(), msg: format!("parse_trace panicked: {}", crate::explore::last_panic()), at: 0 });
+            return out;
+        }
+    };
+    // the reference instant: the earliest base event of the queue, computed without the simulator's helper
     let first = match sq.get_first_time() {
         Some(f) => f,
-        None => return out,
+        None => {
+            // a non-empty trace always has a first event; run the simulator anyway so that a crash is seen
+            let mut q = sq.clone();
+            let args = sys.args();
+            let r = std::panic::catch_unwind(std::panic::AssertUnwindSafe(|| maybenot_simulator::sim_advanced(&[], &[], &mut q, &args)));
+            let msg = match r {
+                Err(_) => format!("simulation of a non-empty trace panicked: {}", crate::explore::last_panic()),
+                Ok(_) => "the parsed queue of a non-empty trace reports no first event time".to_string(),
+            };
+            out.viols.push(Viol { sig: "C14:panic".into(), msg, at: 0 });
+            return out;
+        }
     };
     let raw = if api == 1 {
         let mut q = sq.clone();
@@ -488,13 +523,20 @@ pub fn worker_c15(ctx: &WorkerCtx) -> WorkerOut {
             }
             Some(sp.build(&j))
         } else {
+            // packets-per-second limits 1 and 2, with the product's network delay and with delays
+            // (150 ms, 3 s) that exceed the delay the bottleneck adds
             let k = i - n;
-            let mut j = pr.job((k / 2) * 41 % n);
+            let mut j = pr.job((k / 6) * 41 % n);
             j.pps = Some(1 + k % 2);
+            match (k / 2) % 3 {
+                1 => j.delay_ns = 150_000_000,
+                2 => j.delay_ns = 3_000_000_000,
+                _ => {}
+            }
             Some(sp.build(&j))
         }
     };
-    let total = n + 2 * (n / 41);
+    let total = n + 6 * (n / 41);
     let b = bounds(&sp, total, &delays);
     let res = run_jobs("C15", total, &build, &judge_c15, ctx);
     finish("C15", res, "one job = one closed system (trace x delay x machine sets x fractions x continue flag), run on the real sim_advanced; oracle: time order, exact sent/received matching per side and kind with the network delay, normal packet conservation. distinct_nontrivial = distinct output traces containing padding or blocking", b, 1000, ctx, vec![ASSUME.into()])
@@ -503,7 +545,8 @@ pub fn worker_c16(ctx: &WorkerCtx) -> WorkerOut {
     let q = ctx.quick();
     let sp = space(q, 3);
     let delays = [0, 2 * US, 5 * US];
-    let sets = machine_sets(&sp.lib, &|g| g.kind == 'b', &|g| matches!(g.kind, 'b' | 'p' | 'r') || !q && g.kind == 'x', q);
+    let mut sets = machine_sets(&sp.lib, &|g| g.kind == 'b', &|g| matches!(g.kind, 'b' | 'p' | 'r') || !q && g.kind == 'x', q);
+    sets.extend(bypass_interaction_triples(&sp.lib));
     let pr = product(&sp, sets, &delays, &[0], &[true], &[0]);
     let n = pr.len();
     let build = |i: usize| -> Option<SimSys> {
@@ -521,7 +564,16 @@ pub fn worker_c17(ctx: &WorkerCtx) -> WorkerOut {
     let q = ctx.quick();
     let sp = space(q, 3);
     let delays = [0, 2 * US, 5 * US];
-    let sets = machine_sets(&sp.lib, &|g| matches!(g.kind, 'p' | 'b' | 'r' | 'c'), &|g| matches!(g.kind, 'p' | 'b' | 'r' | 'c' | 'x'), q);
+    let mut sets = machine_sets(&sp.lib, &|g| matches!(g.kind, 'p' | 'b' | 'r' | 'c'), &|g| matches!(g.kind, 'p' | 'b' | 'r' | 'c' | 'x'), q);
+    // internal-timer gadgets at the lower machine index next to action-timer gadgets (several kinds of action in one trigger batch)
+    let timers: Vec<u16> = (0..sp.lib.len() as u16).filter(|i| sp.lib[*i as usize].kind == 't').collect();
+    let actors: Vec<u16> = (0..sp.lib.len() as u16).filter(|i| matches!(sp.lib[*i as usize].kind, 'r' | 'c') || sp.lib[*i as usize].kind == 'p' && sp.lib[*i as usize].name.contains("rp0")).collect();
+    for t in &timers {
+        for a in &actors {
+            sets.push((vec![*t, *a], vec![]));
+            sets.push((vec![*a, *t], vec![]));
+        }
+    }
     let pr = product(&sp, sets, &delays, &[0], &[true], &[0]);
     let n = pr.len();
     let build = |i: usize| -> Option<SimSys> {
@@ -562,9 +614,57 @@ pub fn c14_traces(maxlen: usize) -> Vec<Vec<Pkt>> {
     }
     v
 }
+/// Longer, structured traces: periodic streams and bursts in both directions, sized to reach the
+/// packets-per-second logic (window counting in parse_trace, the bottleneck's 1 s window).
+pub fn c14_long_traces(q: bool) -> Vec<Vec<Pkt>> {
+    let ms = 1_000_000u64;
+    let mut v = vec![];
+    let periods: &[u64] = if q { &[10 * ms, 99 * ms, 100 * ms, 110 * ms, 250 * ms] } else { &[ms, 10 * ms, 50 * ms, 99 * ms, 100 * ms, 101 * ms, 110 * ms, 250 * ms, 1000 * ms] };
+    let counts: &[usize] = if q { &[11, 21, 40] } else { &[5, 11, 12, 21, 40, 80] };
+    // direction patterns: all sent, all received, alternating, two sent one received, interleaved offset streams
+    for p in periods {
+        for n in counts {
+            for pat in 0..6 {
+                let mut t: Vec<Pkt> = vec![];
+                for i in 0..*n {
+                    let (time, dir) = match pat {
+                        0 => (i as u64 * p, true),
+                        1 => (i as u64 * p, false),
+                        2 => (i as u64 * p, i % 2 == 0),
+                        3 => (i as u64 * p, i % 3 != 2),
+                        4 => ((i / 2) as u64 * p + if i % 2 == 0 { 0 } else { p / 2 }, i % 2 == 0),
+                        _ => ((i / 2) as u64 * p, i % 2 == 0), // both directions at identical instants
+                    };
+                    t.push((time, dir));
+                }
+                v.push(t);
+            }
+        }
+    }
+    // a dense burst followed by a sparser group, per direction and mixed
+    for (burst, span) in [(30usize, 30 * ms), (15, 10 * ms), (12, 100 * ms)] {
+        for (later, gap) in [(2usize, 500 * ms), (1, 2000 * ms), (3, 150 * ms)] {
+            for pat in 0..3 {
+                let mut t: Vec<Pkt> = vec![];
+                for i in 0..burst {
+                    t.push((i as u64 * span / burst as u64, match pat { 0 => true, 1 => false, _ => i % 2 == 0 }));
+                }
+                for j in 0..later {
+                    t.push((span + gap + j as u64 * ms / 2, match pat { 0 => true, 1 => false, _ => j % 2 == 1 }));
+                }
+                v.push(t);
+            }
+        }
+    }
+    v
+}
+
 pub fn worker_c14(ctx: &WorkerCtx) -> WorkerOut {
     let q = ctx.quick();
-    let sp = Space { traces: Arc::new(c14_traces(if q { 4 } else { 5 })), lib: Arc::new(vec![]) };
+    let mut all_traces = c14_traces(if q { 4 } else { 5 });
+    let n_short = all_traces.len();
+    all_traces.extend(c14_long_traces(q));
+    let sp = Space { traces: Arc::new(all_traces), lib: Arc::new(vec![]) };
     let delays = [0u64, 1, 10_000_000];
     let mut jobs = vec![];
     for t in 0..sp.traces.len() as u32 {
@@ -598,6 +698,8 @@ pub fn worker_c14(ctx: &WorkerCtx) -> WorkerOut {
     let mut out = finish("C14", res, "one job = one input trace (all traces up to the length bound over gaps {0,1ns,1us,100ms,100ms+1ns,1s} and both directions) x network delay x API (sim, sim_advanced) x every filter combination x length cap, without machines; oracle: the multiset of network-visible (time, side, sent/received) events equals the input trace exactly, mirrored and shifted by the delay at the server. distinct_nontrivial = distinct output traces of inputs with more than one packet", json!({"traces": sp.traces.len(), "delays_ns": delays, "jobs": n, "sim_api_jobs": jobs1.len()}), 1000, ctx, vec!["no integration delays; the packets-per-second bottleneck derived by parse_trace never binds for these traces".into()]);
     out.reported.extend(res1.reported);
     out.coverage["sim_api_runs"] = json!(res1.runs);
+    out.coverage["short_traces_enumerated_exhaustively"] = json!(n_short);
+    out.coverage["long_structured_traces"] = json!(sp.traces.len() - n_short);
     out
 }
 
